@@ -263,6 +263,41 @@ def equal(p, q):
     return is_zero(add(p, q, -1))
 
 
+def merge_equal_atoms(p, _reps=None):
+    """Rewrites function atoms whose arguments are equal as rational functions (but were built differently, e.g. the radicand
+    (1-K) s^2 with K = n s^2/(d + n s^2) and the radicand 1/(1/s^2 + n/d)) to one representative, so that the polynomial
+    arithmetic sees them as the same atom.  Equality of arguments is decided by the witness (cross-multiplication)."""
+    reps = _reps if _reps is not None else {}
+
+    def rw_atom(a):
+        if a[0] == 'fn':
+            args = tuple(canon(merge_equal_atoms(uncanon(x), reps)) if isinstance(x, tuple) and x and isinstance(x[0], tuple) else x for x in a[2])
+            a2 = ('fn', a[1], args)
+            cls = reps.setdefault((a[1], len(args)), [])
+            for r in cls:
+                if r == a2:
+                    return r
+                try:
+                    if all((x == y) or (isinstance(x, tuple) and x and isinstance(x[0], tuple) and isinstance(y, tuple) and y and isinstance(y[0], tuple) and equal(uncanon(x), uncanon(y)))
+                           for x, y in zip(r[2], args)):
+                        return r
+                except (TooBig, NoRule, ZeroDivisionError, ValueError):
+                    continue
+            cls.append(a2)
+            return a2
+        if a[0] in ('sin', 'cos', 'inv'):
+            return (a[0], canon(merge_equal_atoms(uncanon(a[1]), reps)))
+        return a
+    out = {}
+    for m, c in p.items():
+        term = const(c)
+        for a, e in m:
+            a2 = rw_atom(a)
+            term = mul(term, {((a2, e),): Fraction(1)})
+        out = add(out, term)
+    return out
+
+
 def sqrt_of(a):
     """sqrt(a) with even powers of the positive constant pi (and rational squares) taken out of the radicand"""
     a = reduce_trig(a)
